@@ -228,9 +228,13 @@ type Cfg struct {
 	Options  bool // optional / default= tags and untagged-with-options fields (part 1)
 	Embedded bool // embedded untagged structs (part 1)
 	MaxDepth int  // nesting of struct/slice/map below the root struct
+	// ExcludePtrToContainer / ExcludeMapOfPtrToPrim: replace (and count) the type shapes of
+	// the C08 findings D9a/D9c resp. D9b.  Off by default (those are fixed in /repo); the
+	// tests switch them on only while the finding is listed as known.
+	ExcludePtrToContainer, ExcludeMapOfPtrToPrim bool
 }
 
-// TypeGen draws types; Excluded counts the D9/D2 shapes that were drawn and replaced.
+// TypeGen draws types; Excluded counts the shapes that were drawn and replaced (see Cfg).
 type TypeGen struct {
 	t        *rapid.T
 	cfg      Cfg
@@ -322,7 +326,7 @@ func (g *TypeGen) typ(depth, ptrs int) *Type {
 			return &Type{Kind: rapid.SampledFrom(primKinds).Draw(g.t, "prim")}
 		}
 		el := g.typ(depth, ptrs+1)
-		if k := el.Deref().Kind; k == reflect.Slice || k == reflect.Map {
+		if k := el.Deref().Kind; g.cfg.ExcludePtrToContainer && (k == reflect.Slice || k == reflect.Map) {
 			// DESIGN §3 D9 (a), (c): a pointer whose element is a map or a slice
 			g.Excluded["ptr-to-container"]++
 			return el
@@ -334,7 +338,7 @@ func (g *TypeGen) typ(depth, ptrs int) *Type {
 		return &Type{Kind: reflect.Slice, Elem: g.typ(depth+1, 0)}
 	default:
 		el := g.typ(depth+1, 0)
-		if el.Kind == reflect.Ptr && el.Deref().IsPrim() {
+		if g.cfg.ExcludeMapOfPtrToPrim && el.Kind == reflect.Ptr && el.Deref().IsPrim() {
 			// DESIGN §3 D9 (b): a map whose element is a pointer to a primitive
 			g.Excluded["map-of-ptr-to-prim"]++
 			el = el.Deref()
